@@ -125,6 +125,14 @@ def gen_case(ctx: Ctx):
     if kind == "spatial":
         params["angular_spread"] = gen_dist(rng, "angular_spread") if rng.random() < 0.7 else 1.0
     case = {"kind": kind, "params": params}
+    if kind not in ("probe", "planewave-multislice"):
+        chunks = []
+        for n in ordered_dist_params(kind, params):
+            m, cs = len(params[n]["values"]), []
+            while m > 0:
+                k = rng.randint(1, m); cs.append(k); m -= k
+            chunks.append(cs)
+        case["chunks"] = chunks
     if kind == "probe":
         for s in rng.sample(["C10", "C30", "C12"], rng.randint(0, 2)):
             params[s] = gen_dist(rng, s, allow_mean=True)
@@ -230,6 +238,40 @@ class C03(Property):
                                  case | {"chunks": chunks, "block": bi}, "ok " + "|".join(enc)))
             ctx.count(f"unit:ndist={sum(isinstance(a, list) for a in args)}")
             ctx.case(case, nontrivial=any(isinstance(a, list) for a in args))
+        # Probe: the order in which the builder lists its ensembles and the order in which _calculate_array applies them
+        # (both read from the current source) must produce the axes order of a really built probe
+        import ast
+        import inspect
+
+        import abtem
+        from abtem.distributions import from_values
+
+        src = ast.parse(inspect.getsource(abtem.waves))
+        probe_cls = [n for n in src.body if isinstance(n, ast.ClassDef) and n.name == "Probe"][0]
+        init = [n for n in probe_cls.body if isinstance(n, ast.FunctionDef) and n.name == "__init__"][0]
+        calc = [n for n in probe_cls.body if isinstance(n, ast.FunctionDef) and n.name == "_calculate_array"][0]
+        names = [e.value for n in ast.walk(init) if isinstance(n, ast.Assign) and ast.unparse(n.targets[0]) == "ensemble_names" for e in n.value.elts]
+        applied = [n.value.func.value.attr for n in calc.body if isinstance(n, ast.Assign) and isinstance(n.value, ast.Call)
+                   and isinstance(n.value.func, ast.Attribute) and n.value.func.attr == "apply" and isinstance(n.value.func.value, ast.Attribute)
+                   and ast.unparse(n.value.func.value.value) == "waves_builder"]
+        for _ in range(ctx.n(6, 40)):
+            sizes = {"tilt": rng.choice([0, 2, 3]), "aberrations": rng.choice([0, 2, 3, 4]), "aperture": rng.choice([0, 2])}
+            if len({v for v in sizes.values() if v}) != len([v for v in sizes.values() if v]):
+                continue  # distinct sizes identify the axes of the built array
+            kw = dict(energy=100e3, gpts=8, extent=4.0)
+            if sizes["tilt"]:
+                kw["tilt"] = (from_values([float(i) for i in range(sizes["tilt"])]), 1.0)
+            if sizes["aberrations"]:
+                kw["C10"] = from_values([10.0 * i for i in range(sizes["aberrations"])])
+            kw["semiangle_cutoff"] = from_values([15.0 + 5 * i for i in range(sizes["aperture"])]) if sizes["aperture"] else 20.0
+            enc = lambda order: "|".join(f"{n}:{sizes.get(n, 0)}" for n in order if n != "scan_positions") or "-"  # noqa
+            case = {"sizes": sizes, "names": names, "applied": applied}
+            try:
+                w = abtem.Probe(**kw).build(lazy=False)
+                impl = "ok " + list_s(list(w.shape[:-2])) + " " + list_s([a.label.split("_")[0] if a.label else "semiangle" for a in w.ensemble_axes_metadata])
+            except Exception as e:  # noqa
+                impl = "err " + err_kind(e)
+            jobs.append((f"compose {enc(names)} {enc(applied)}", "Probe ensemble axes order (ensemble_names vs _calculate_array apply order)", case, impl))
         outs = drv.query([j[0] for j in jobs])
         for (line, name, case, impl), out in zip(jobs, outs):
             ctx.agree(name, case | {"line": line}, out, impl)
@@ -257,6 +299,19 @@ class C03(Property):
         if len(got_vals) != len(want_vals) or any(not np.allclose(g, w, rtol=1e-6) for g, w in zip(got_vals, want_vals)):
             ctx.violation(f"{kind}:axis-values-ne-distribution-values", c, {"axes": got_vals, "distributions": want_vals}); return
         weighted = kind in ("aberrations", "ctf")
+        if shape and c.get("chunks") is not None:  # lazy evaluation: every block transform on its own, assembled by chunk ranges
+            from abtem.core.chunks import iterate_chunk_ranges
+
+            chunks = tuple(tuple(cs) for cs in c["chunks"])
+            try:
+                blocks = obj.ensemble_blocks(chunks).compute(scheduler="synchronous")
+                asm = np.full(arr.shape, np.nan, dtype=arr.dtype)
+                for bi, sl in iterate_chunk_ranges(chunks):
+                    asm[sl] = np.asarray(blocks[bi]._evaluate_from_angular_grid(alpha, phi))
+            except Exception as e:  # noqa
+                ctx.violation(f"{kind}:lazy-blocks-raise", c, {"error": f"{type(e).__name__}: {e}"[:200]}); return
+            if not np.allclose(asm, arr, rtol=1e-5, atol=1e-6, equal_nan=False):
+                ctx.violation(f"{kind}:lazy-member-ne-eager-member", c, {"max_abs_diff": float(np.nanmax(np.abs(asm - arr)))}); return
         for idx in itertools.product(*[range(n) for n in shape]):
             sp = dict(params)
             w = 1.0
@@ -343,7 +398,7 @@ class C03(Property):
                 return
 
     def conformance(self, ctx: Ctx):
-        for _ in range(ctx.n(60, 1200)):
+        for _ in range(ctx.n(60, 800)):
             c = gen_case(ctx)
             self.oracle(ctx, c)
             ctx.count("oracle:" + c["kind"])
